@@ -562,6 +562,29 @@ m('cache-hit-does-not-tell-replacer', ['C13', 'C14'], BPM, """		pg.IncPinCount()
 m('unpin-offers-frame-while-pinned', ['C13', 'C14'], BPM, """		if pg.PinCount() <= 0 {
 			(*b.replacer).Unpin(frameID)
 		}""", """		(*b.replacer).Unpin(frameID)""", ['C13-R11 [UnpinPage:offered-only-when-unpinned]'])
+m('unlock-deletes-foreign-exclusive-entry', ['C16', 'C05'], LK, """			if lockManager.exclusiveLockTable[lockedRID] == txn.GetTransactionID() {
+				// fmt.Println("delete exclusiveLockTable entry")
+				// fmt.Println(lockedRID)
+				delete(lockManager.exclusiveLockTable, lockedRID)
+			}""", """			delete(lockManager.exclusiveLockTable, lockedRID)""", ['C16-R6 [Unlock:exclusive-entry-deleted-only-for-its-owner]'])
+m('unlock-clears-all-shared-holders', ['C16', 'C05'], LK, """				lockManager.sharedLockTable[lockedRID] = removeTxnID(arr, txn.GetTransactionID())""", """				lockManager.sharedLockTable[lockedRID] = arr[:0]""", ['C16-R6 [Unlock:shared-list-loses-only-the-caller'])
+m('remove-txnid-drops-first-element', ['C16'], LK, """	for i, t := range list {
+		if t == txnID {
+			lst = append(list[:i], list[i+1:]...)
+			break
+		}
+	}
+	return lst
+}
+
+func isContainTxnID""", """	for i := range list {
+		lst = append(list[:i], list[i+1:]...)
+		break
+	}
+	return lst
+}
+
+func isContainTxnID""", ['C16-R6 [removeTxnID:drops-only-the-given-id]'])
 # drop the one that needs a helper that does not exist
 M = [x for x in M if x['id'] != 'insert-executor-unlocks-early']
 os.chdir(os.path.dirname(os.path.abspath(__file__)) + '/..')
